@@ -69,10 +69,14 @@ static uint32_t expected_decode(const Image &src, int x, int y) {
 // ---------------------------------------------------------------- exhaustive decode / encode / round trip for one format
 struct ExhCase {
   int fmt = 0, acc = 0, dx = 0;
+  int dither = 0, dox = 0, doy = 0;  // dithering on the image written back to (formats with 1/2/4/8-bit channels only)
   template <class A> void io(A &a) {
     a.f("fmt", fmt);
     a.f("acc", acc);
     a.f("dx", dx);
+    a.f("dither", dither);
+    a.f("dox", dox);
+    a.f("doy", doy);
   }
 };
 static ExhCase gen_exh() {
@@ -80,6 +84,11 @@ static ExhCase gen_exh() {
   c.fmt = (int)R(0, NFORMATS - 1);
   c.acc = (int)R(0, 3);
   c.dx = (int)R(0, 9);
+  if (coin(30)) {
+    c.dither = (int)R(1, 5);
+    c.dox = (int)R(-5, 70);
+    c.doy = (int)R(-5, 70);
+  }
   return c;
 }
 
@@ -173,6 +182,15 @@ static Verdict run_exh(const ExhCase &c) {
       auto back = make_image(bd);
       acc_reset({back.get(), dst.get()});
       if ((c.acc & 1) && bpp(back->d.code()) <= 32) pixman_image_set_accessors(back->im, acc_read, acc_write);
+      // A value that the format represents exactly must survive a dithered store: the noise that is added before
+      // truncation is smaller than one step.  (Asserted for channel widths 1, 2, 4 and 8 only: for 3, 5 and 6 bits the
+      // 8-bit intermediate is a bit-replicated value, which the float pipeline does not map back onto the exact grid.)
+      auto wok = [](int b) { return b == 0 || b == 1 || b == 2 || b == 4 || b == 8; };
+      if (c.dither && packed_rgb(f) && wok(abits(f)) && wok(rbits(f)) && wok(gbits(f)) && wok(bbits(f))) {
+        pixman_image_set_dither(back->im, (pixman_dither_t)c.dither);
+        pixman_image_set_dither_offset(back->im, c.dox, c.doy);
+        v.label("dithered_store");
+      }
       pixman_image_composite32(PIXMAN_OP_SRC, dst->im, nullptr, back->im, c.dx, 0, 0, 0, 0, 0, W, H);
       uint32_t dm = defined_mask(f);
       for (int i = 0; i < n && v.ok; i++) {
